@@ -130,6 +130,7 @@ partial def parseBlk (j : Json) : R (Blocks.Blk Nat) := do
     | "loop" => return .loopS (← part "a") (← part "b")
     | "with" => return .withS (← part "a")
     | "try" => return .tryS (← part "a") (← part "b") (← part "c") (← part "d")
+    | "match" => return .matchS (← part "a")
     | "opaque" => return .noVisit (← part "a")
     | _ => throw s!"unknown block kind {k}"
 partial def parseBlkL (j : Json) : R (List (Blocks.Blk Nat)) := do (← asArr j).mapM parseBlk
